@@ -61,7 +61,7 @@ TLoad ==      \* crash scenarios start from the state the interrupted invocation
 TCrash ==     \* the steps between the start and the kill are not replayed: the snapshot is loaded
   /\ Is("crash") /\ mode # "idle" /\ LoadDisk(E.state)
   /\ VolReset /\ verdict' = "none" /\ UNCHANGED <<ord, rules, env, scn>>
-  /\ ev' = [a |-> "crash", inexec |-> E.inexec]
+  /\ ev' = [a |-> "crash", inexec |-> E.inexec, taken |-> E.taken]
   /\ g' = Fold(g, ev', ws', cache', hist', fstab', rdir', {})
 
 \* the state an invocation starts from is logged too (crash scenarios omit it)
